@@ -230,7 +230,8 @@ def run_einsum(ctx):
     design = {"ran": False}
     n_tied_programs = sum(1 for p in programs if any(o["tied"] for o in p["orders"]))
     if not STRICT_ORDER and n_tied_programs:
-        d = tlc.run("Einsum", _einsum_cfg(ctx, "design", tier, "InitTied", "Next", ["ImplEqualsRefAlways"]), work=ctx.work,
+        # (always on the quick domain: the counterexample is the same, InitTied is expensive)
+        d = tlc.run("Einsum", _einsum_cfg(ctx, "design", "quick", "InitTied", "Next", ["ImplEqualsRefAlways"]), work=ctx.work,
                     coverage=False, workers=8, timeout=1200, expect_violation=True)
         design = {"ran": True, "violated": d.violation, "states": d.distinct}
         ctx.log("Einsum.tla design probe (ties allowed): ImplEqualsRefAlways %s" % ("VIOLATED on the model" if d.violation else "holds"))
